@@ -986,6 +986,30 @@ class Fn:
                             return FALSE
         return None
 
+    def le_len(self, st, operand, slice_operand, slice_av, strict=False):
+        """the path has established  operand <= len(slice)  (strict: <) through a comparison of the operand with a local that holds the length of that very slice"""
+        if not st.ordf:
+            return False
+        ssrc = self.slice_src(st, slice_operand, slice_av)
+        osrc = self.own_src(st, operand)
+        if ssrc is None or osrc is None:
+            return False
+        mine = (osrc, self._orig(st, osrc))
+        for (x, y, st_) in st.ordf:      # x > y (strict) or x >= y
+            if strict and not st_:
+                continue
+            if st.ver.get(x[1], 0) != x[3] or st.ver.get(y[1], 0) != y[3] or x[2]:
+                continue
+            ls = st.lenof.get(x[1])
+            if ls is None:
+                o = self._orig(st, x)
+                ls = st.lenof.get(o[1]) if o is not None and not o[2] and st.ver.get(o[1], 0) == o[3] else None
+            if ls is None or ls != ssrc or st.ver.get(ls[1], 0) != ls[3]:
+                continue
+            if any(m == y or m == self._orig(st, y) for m in mine):
+                return True
+        return False
+
     def own_src(self, st, o):
         if o["k"] in ("copy", "move"):
             l = o["pl"]["l"]
